@@ -45,7 +45,10 @@ pub fn run(ctx: &mut Ctx) {
         let mut rng = ctx.rng.fork();
         // distinct field names (duplicates are rejected at construction)
         let nf = 1 + rng.below(4);
-        let names = ["a", "b", "c", "d"];
+        // a fifth of the schemas use names that are prefixes of one another; presented (address class 2) as slices of ONE static
+        // string they all start at the same address - the name cache must still tell them apart
+        let shared = g % 5 == 4;
+        let names = if shared { ["abc", "ab", "abcd", "a"] } else { ["a", "b", "c", "d"] };
         let fields: Vec<Field> = (0..nf).map(|i| { let d = rng.below(3); arrgen::gen_field(&mut rng, names[i], d) }).filter(|f| !matches!(f.data_type, DataType::Null)).collect();
         if fields.is_empty() { continue; }
         let nrec = 1 + rng.below(6);
@@ -53,22 +56,23 @@ pub fn run(ctx: &mut Ctx) {
         let logical: Vec<Logical> = (0..nrec).map(|_| fields.iter().map(|f| if f.nullable && !matches!(f.data_type, DataType::Union(..)) && rng.chance(1, 5) { None } else { let v = arrgen::gen_val(&mut rng, f, &mut none); Some(v) }).collect()).collect();
         let mut results: Vec<(String, Vec<Val>, Out<Vec<Array>>)> = vec![];
         for kind in 0..5 {
-            for class in [0u8, 1u8] {
-                if kind >= 2 && class == 1 { continue; }
+            for class in [0u8, 1u8, 2u8] {
+                if kind >= 2 && class >= 1 { continue; }
+                if class == 2 && !shared { continue; }
                 let rows: Vec<Val> = logical.iter().map(|r| present(&mut rng, &fields, r, kind, class)).collect();
                 let out = run_batch(&fields, &rows);
                 results.push((format!("kind{}class{}", kind, class), rows, out));
             }
         }
         // interleaving: every row in a random presentation and address class
-        let rows: Vec<Val> = logical.iter().map(|r| { let k = rng.below(5); let c = rng.below(2) as u8; present(&mut rng, &fields, r, k, c) }).collect();
+        let rows: Vec<Val> = logical.iter().map(|r| { let k = rng.below(5); let c = if shared { 2 } else { rng.below(2) as u8 }; present(&mut rng, &fields, r, k, c) }).collect();
         let out = run_batch(&fields, &rows);
         results.push(("interleaved".into(), rows, out));
         // a reused builder: the batch arrives in a random presentation AFTER the same builder has already delivered the batch in
         // struct order (per-batch state of the name lookup must not leak: index, cache, cursor)
         {
             let first: Vec<Val> = logical.iter().map(|r| present(&mut rng, &fields, r, 0, 0)).collect();
-            let rows: Vec<Val> = logical.iter().map(|r| { let k = rng.below(5); let c = rng.below(2) as u8; present(&mut rng, &fields, r, k, c) }).collect();
+            let rows: Vec<Val> = logical.iter().map(|r| { let k = rng.below(5); let c = if shared { 2 } else { rng.below(2) as u8 }; present(&mut rng, &fields, r, k, c) }).collect();
             let out = guarded(|| -> Result<Vec<Array>, String> {
                 let mut b = serde_arrow::ArrayBuilder::from_marrow(&fields).map_err(|e| e.to_string())?;
                 b.extend(&first).map_err(|e| format!("first batch: {}", e))?;
